@@ -610,7 +610,7 @@ theorem construct_wf (s : List Char) (r : Raw) (h : construct s = .ok r) : WF r 
   unfold construct at h
   simp only [] at h
   split at h
-  · cases h; rfl
+  · cases h
   · split at h
     · cases h
     · split at h
@@ -618,6 +618,28 @@ theorem construct_wf (s : List Char) (r : Raw) (h : construct s = .ok r) : WF r 
       · rename_i v hv
         cases h
         exact fromCoerced_wf _ _ hv
+
+/-- the value `None` is never built -/
+theorem construct_isSome (s : List Char) (r : Raw) (h : construct s = .ok r) : r.isSome = true := by
+  unfold construct at h
+  simp only [] at h
+  split at h
+  · cases h
+  · split at h
+    · cases h
+    · split at h
+      · cases h
+      · cases h; rfl
+
+/-- `NugetVersion(string)` raises nothing but `InvalidVersion` -/
+theorem construct_declared (s : List Char) (n : String) : construct s ≠ .error (.other n) := by
+  unfold construct
+  simp only []
+  split
+  · simp
+  · split
+    · simp
+    · split <;> simp
 
 /-! ### NuGet folds case by upper-casing (`OrdinalIgnoreCase`); the code lower-cases -/
 
@@ -666,32 +688,561 @@ theorem fold_differs_outside_alphabet :
     charsCmp (lower ['_']) (lower ['a']) = .lt ∧ charsCmp (upper ['_']) (upper ['a']) = .gt := by
   decide
 
-/-! ### C11: `str` round trip
+/-! ### C11: `str` round trip -/
 
-Not proved in general (the chain `coerce` / `_extract_revision` / `coerce` / `_REGEX` on the printed
-string); checked on instances.  It FAILS for the value `None` of `NugetVersion("")`: its `str` is
-`"None"`, which `NugetVersion` refuses with `InvalidNuGetVersion`. -/
+theorem isDigit_eq (c : Char) : isDigit c = c.isDigit := by
+  simp only [isDigit, Char.isDigit, Char.le_def, ge_iff_le]
 
-theorem str_roundtrip_counterexample :
-    construct [] = .ok none ∧ str none = "None".toList ∧
-    construct (str none) = .error (.other "InvalidNuGetVersion") :=
-  ⟨by rfl, by rfl, by rfl⟩
+theorem natStr_digits (k : Nat) : ∀ c ∈ natStr k, isDigit c = true := by
+  intro c hc
+  rw [isDigit_eq]
+  exact Nat.isDigit_of_mem_toDigits (by decide) (by decide) hc
 
-example : construct "01.02.03.04-RC.1+B".toList =
-    .ok (some ⟨1, 2, 3, some "rc.1".toList, some "B".toList, 4⟩) := by rfl
-example : str (some ⟨1, 2, 3, some "rc.1".toList, some "B".toList, 4⟩) = "1.2.3.4-rc.1+B".toList := by rfl
-example : construct (str (some ⟨1, 2, 3, some "rc.1".toList, some "B".toList, 4⟩)) =
-    .ok (some ⟨1, 2, 3, some "rc.1".toList, some "B".toList, 4⟩) := by rfl
-example : construct (str (some ⟨10, 0, 0, none, none, 0⟩)) = .ok (some ⟨10, 0, 0, none, none, 0⟩) := by rfl
+theorem natStr_ne_nil (k : Nat) : natStr k ≠ [] := Nat.toDigits_ne_nil
 
-/-- `NugetVersion("abc")`: `InvalidNuGetVersion` escapes (it is not a `ValueError`) -/
-theorem construct_no_digit_raises :
-    construct "abc".toList = .error (.other "InvalidNuGetVersion") := by rfl
+theorem natStr_canon (k : Nat) : canonNum (natStr k) = true := by
+  induction k using Nat.strongRecOn with
+  | _ k ih =>
+    by_cases hk : k < 10
+    · unfold natStr
+      rw [Nat.toDigits_of_lt_base hk]
+      by_cases h0 : k = 0
+      · subst h0; rfl
+      · simp [canonNum, h0]
+    · have hpos : 0 < k / 10 := Nat.div_pos (by omega) (by decide)
+      have ih' := ih (k / 10) (by omega)
+      unfold natStr at ih' ⊢
+      rw [Nat.toDigits_of_base_le (by decide) (by omega)]
+      cases hd : Nat.toDigits 10 (k / 10) with
+      | nil => exact absurd hd Nat.toDigits_ne_nil
+      | cons x xs =>
+        rw [hd] at ih'
+        have hx : x ≠ '0' := by
+          intro hx; subst hx
+          simp only [canonNum, List.head?_cons, bne_self_eq_false, Bool.or_false, beq_iff_eq,
+            List.cons.injEq, true_and] at ih'
+          subst ih'
+          have := Nat.ofDigitChars_ten_toDigits (n := k / 10)
+          rw [hd] at this
+          simp [Nat.ofDigitChars] at this
+          omega
+        simp [canonNum, hx]
 
-/-- ordering `NugetVersion("")` against a version raises `TypeError` (`defined = false`);
-`==` answers `False` -/
-theorem none_value_undefined :
-    defined none (some ⟨1, 0, 0, none, none, 0⟩) = false ∧
-    verOps.eq none (some ⟨1, 0, 0, none, none, 0⟩) = false := by decide
+/-- the head of `r`, if any, is not a digit -/
+def HeadNotDigit (r : List Char) : Prop := ∀ c, r.head? = some c → isDigit c = false
+
+theorem span_loop_digits (l r : List Char) (hl : ∀ c ∈ l, isDigit c = true) (hr : HeadNotDigit r) :
+    ∀ acc, List.span.loop isDigit (l ++ r) acc = (acc.reverse ++ l, r) := by
+  induction l with
+  | nil =>
+    intro acc
+    cases r with
+    | nil => simp [List.span.loop]
+    | cons c cs => simp [List.span.loop, hr c rfl]
+  | cons x xs ih =>
+    intro acc
+    have hx := hl x (by simp)
+    simp only [List.cons_append, List.span.loop, hx]
+    rw [ih (fun c hc => hl c (List.mem_cons_of_mem _ hc))]
+    simp
+
+theorem span_digits (l r : List Char) (hl : ∀ c ∈ l, isDigit c = true) (hr : HeadNotDigit r) :
+    (l ++ r).span isDigit = (l, r) := by
+  simp [List.span, span_loop_digits l r hl hr]
+
+theorem dotNum_digits (l r : List Char) (hne : l ≠ []) (hl : ∀ c ∈ l, isDigit c = true)
+    (hr : HeadNotDigit r) : dotNum ('.' :: (l ++ r)) = (some l, r) := by
+  cases l with
+  | nil => exact absurd rfl hne
+  | cons x xs => simp only [dotNum, span_digits (x :: xs) r hl hr]
+
+theorem dotNum_none (r : List Char) (h : ∀ c, r.head? = some c → c ≠ '.') : dotNum r = (none, r) := by
+  unfold dotNum
+  split
+  · exact absurd rfl (h '.' rfl)
+  · rfl
+
+theorem headNotDigit_dot (r : List Char) : HeadNotDigit ('.' :: r) := by
+  intro c hc; simp at hc; subst hc; decide
+
+/-- `A.B.C` followed by `rest` -/
+def core3 (A B C rest : List Char) : List Char := A ++ '.' :: (B ++ '.' :: (C ++ rest))
+
+theorem stripLeadingV_digit (a : Char) (r : List Char) (ha : isDigit a = true) :
+    stripLeadingV (a :: r) = a :: r := by
+  unfold stripLeadingV
+  split
+  · rename_i heq
+    simp only [List.cons.injEq] at heq
+    rw [heq.1] at ha
+    exact absurd ha (by decide)
+  · rfl
+
+theorem coerce_core3 (A B C rest : List Char) (hA : A ≠ []) (hB : B ≠ []) (hC : C ≠ [])
+    (dA : ∀ c ∈ A, isDigit c = true) (dB : ∀ c ∈ B, isDigit c = true)
+    (dC : ∀ c ∈ C, isDigit c = true) (hr : HeadNotDigit rest) :
+    coerce (core3 A B C rest) =
+      core3 (natStr (natVal A)) (natStr (natVal B)) (natStr (natVal C)) rest := by
+  cases A with
+  | nil => exact absurd rfl hA
+  | cons a A' =>
+    have h1 : stripLeadingV (core3 (a :: A') B C rest) = core3 (a :: A') B C rest :=
+      stripLeadingV_digit a _ (dA a (by simp))
+    have h2 : (core3 (a :: A') B C rest).span isDigit = (a :: A', '.' :: (B ++ '.' :: (C ++ rest))) :=
+      span_digits _ _ dA (headNotDigit_dot _)
+    have h3 := dotNum_digits B ('.' :: (C ++ rest)) hB dB (headNotDigit_dot _)
+    have h4 := dotNum_digits C rest hC dC hr
+    simp only [coerce, h1, h2, h3, h4, Option.getD_some]
+    simp only [core3, List.append_assoc, List.cons_append]
+
+theorem extractRevision_rev (A B C D T : List Char) (hA : A ≠ []) (hB : B ≠ []) (hC : C ≠ [])
+    (hD : D ≠ [])
+    (dA : ∀ c ∈ A, isDigit c = true) (dB : ∀ c ∈ B, isDigit c = true)
+    (dC : ∀ c ∈ C, isDigit c = true) (dD : ∀ c ∈ D, isDigit c = true) (hT : HeadNotDigit T) :
+    extractRevision (core3 A B C ('.' :: (D ++ T))) = (core3 A B C T, natVal D) := by
+  cases A with
+  | nil => exact absurd rfl hA
+  | cons a A' =>
+    have h2 : (core3 (a :: A') B C ('.' :: (D ++ T))).span isDigit =
+        (a :: A', '.' :: (B ++ '.' :: (C ++ '.' :: (D ++ T)))) :=
+      span_digits _ _ dA (headNotDigit_dot _)
+    have h3 := dotNum_digits B ('.' :: (C ++ '.' :: (D ++ T))) hB dB (headNotDigit_dot _)
+    have h4 := dotNum_digits C ('.' :: (D ++ T)) hC dC (headNotDigit_dot _)
+    have h5 := dotNum_digits D T hD dD hT
+    simp only [extractRevision, h2, h3, h4, h5]
+    simp only [core3, List.append_assoc, List.cons_append]
+
+theorem extractRevision_norev (A B C T : List Char) (hA : A ≠ []) (hB : B ≠ []) (hC : C ≠ [])
+    (dA : ∀ c ∈ A, isDigit c = true) (dB : ∀ c ∈ B, isDigit c = true)
+    (dC : ∀ c ∈ C, isDigit c = true) (hT : ∀ c, T.head? = some c → c ≠ '.')
+    (hTd : HeadNotDigit T) :
+    extractRevision (core3 A B C T) = (core3 A B C T, 0) := by
+  cases A with
+  | nil => exact absurd rfl hA
+  | cons a A' =>
+    have h2 : (core3 (a :: A') B C T).span isDigit = (a :: A', '.' :: (B ++ '.' :: (C ++ T))) :=
+      span_digits _ _ dA (headNotDigit_dot _)
+    have h3 := dotNum_digits B ('.' :: (C ++ T)) hB dB (headNotDigit_dot _)
+    have h4 := dotNum_digits C T hC dC hTd
+    have h5 := dotNum_none T hT
+    simp only [extractRevision, h2, h3, h4, h5]
+
+theorem numNoLead_natStr (k : Nat) (r : List Char) (hr : HeadNotDigit r) :
+    numNoLead (natStr k ++ r) = some (k, r) := by
+  have hc := natStr_canon k
+  have hv := natVal_natStr k
+  unfold numNoLead
+  rw [span_digits _ _ (natStr_digits k) hr]
+  cases hn : natStr k with
+  | nil => exact absurd hn (natStr_ne_nil k)
+  | cons x xs =>
+    rw [hn] at hc hv
+    simp only [canonNum] at hc
+    simp only [hc, if_true, hv]
+
+theorem semverParse_core3 (M m p : Nat) (T : List Char) (hT : HeadNotDigit T)
+    (pre build : Option (List Char)) (h : parseTail T = some (pre, build)) :
+    semverParse (core3 (natStr M) (natStr m) (natStr p) T) =
+      some ⟨M, m, p, pre, build, 0⟩ := by
+  have h1 := numNoLead_natStr M ('.' :: (natStr m ++ '.' :: (natStr p ++ T))) (headNotDigit_dot _)
+  have h2 := numNoLead_natStr m ('.' :: (natStr p ++ T)) (headNotDigit_dot _)
+  have h3 := numNoLead_natStr p T hT
+  simp only [semverParse, core3, h1, h2, h3, h, Option.bind_eq_bind, Option.bind_some,
+    Option.pure_def]
+
+/-! #### the tail `-pre+build` -/
+
+theorem mem_splitOn (sep : Char) : ∀ (s : List Char) (c : Char), c ∈ s → c ≠ sep →
+    ∃ part ∈ splitOn sep s, c ∈ part
+  | [], _, h, _ => by simp at h
+  | x :: xs, c, h, hc => by
+    simp only [splitOn]
+    by_cases hx : (x == sep) = true
+    · simp only [hx, if_true]
+      have hxs : x = sep := by simpa using hx
+      rcases List.mem_cons.1 h with e | e
+      · exact absurd (e.trans hxs) hc
+      · obtain ⟨part, hp, hcp⟩ := mem_splitOn sep xs c e hc
+        exact ⟨part, List.mem_cons_of_mem _ hp, hcp⟩
+    · simp only [hx]
+      cases hs : splitOn sep xs with
+      | nil => exact absurd hs (splitOn_ne_nil sep xs)
+      | cons q r =>
+        simp only [Bool.false_eq_true, if_false]
+        rcases List.mem_cons.1 h with e | e
+        · exact ⟨x :: q, by simp, by simp [e]⟩
+        · obtain ⟨part, hp, hcp⟩ := mem_splitOn sep xs c e hc
+          rw [hs] at hp
+          rcases List.mem_cons.1 hp with e' | e'
+          · exact ⟨x :: q, by simp, by rw [← e']; exact List.mem_cons_of_mem _ hcp⟩
+          · exact ⟨part, by simp [e'], hcp⟩
+
+/-- every character of a dotted string of valid labels is a dot or a label character -/
+theorem chars_of_parts (s : List Char) (h : ∀ part ∈ splitOn '.' s, part.all isIdChar = true) :
+    ∀ c ∈ s, c = '.' ∨ isIdChar c = true := by
+  intro c hc
+  by_cases hd : c = '.'
+  · exact .inl hd
+  · obtain ⟨part, hp, hcp⟩ := mem_splitOn '.' s c hc hd
+    exact .inr (List.all_eq_true.1 (h part hp) c hcp)
+
+/-- what `construct` establishes, beyond `WFV`: valid labels in prerelease and build, lower-case
+prerelease -/
+def WF2 (v : Ver) : Bool :=
+  (match v.pre with
+    | none => true
+    | some p => (splitOn '.' p).all validPreId && lower p == p) &&
+  (match v.build with
+    | none => true
+    | some b => (splitOn '.' b).all validBuildId)
+
+def preS : Option (List Char) → List Char
+  | some p => '-' :: p
+  | none => []
+
+def buildS : Option (List Char) → List Char
+  | some b => '+' :: b
+  | none => []
+
+theorem plus_not_mem_pre (p : List Char) (h : (splitOn '.' p).all validPreId = true) : '+' ∉ p := by
+  intro hm
+  have := chars_of_parts p (fun part hp => by
+    have := List.all_eq_true.1 h part hp
+    simp only [validPreId, Bool.and_eq_true] at this
+    exact this.1.2) '+' hm
+  rcases this with e | e
+  · exact absurd e (by decide)
+  · exact absurd e (by decide)
+
+theorem parseBuild_buildS (build : Option (List Char))
+    (hb : (match build with | none => true | some b => (splitOn '.' b).all validBuildId) = true) :
+    parseBuild (buildS build) = some build := by
+  cases build with
+  | none => rfl
+  | some b => simp only [buildS, parseBuild, hb, if_true]
+
+theorem takeWhile_ne_plus (p : List Char) (r' : Option (List Char)) (h : '+' ∉ p) :
+    (p ++ buildS r').takeWhile (· != '+') = p ∧ (p ++ buildS r').dropWhile (· != '+') = buildS r' := by
+  have hp : ∀ a ∈ p, (a != '+') = true := by
+    intro a ha
+    simp only [bne_iff_ne, ne_eq]
+    intro e; subst e; exact h ha
+  rw [List.takeWhile_append_of_pos hp, List.dropWhile_append_of_pos hp]
+  cases r' with
+  | none => simp [buildS]
+  | some b => simp [buildS]
+
+theorem parseTail_tail (pre build : Option (List Char))
+    (hp : (match pre with | none => true | some p => (splitOn '.' p).all validPreId) = true)
+    (hb : (match build with | none => true | some b => (splitOn '.' b).all validBuildId) = true) :
+    parseTail (preS pre ++ buildS build) = some (pre, build) := by
+  cases pre with
+  | none =>
+    simp only [preS, List.nil_append]
+    cases build with
+    | none => rfl
+    | some b =>
+      have := parseBuild_buildS (some b) hb
+      simp only [buildS] at this ⊢
+      simp [parseTail, this]
+  | some p =>
+    have hplus := plus_not_mem_pre p hp
+    have ⟨ht, hd⟩ := takeWhile_ne_plus p build hplus
+    simp only [preS, List.cons_append, parseTail, ht, hd, hp, if_true,
+      parseBuild_buildS build hb, Option.map_some]
+
+/-! #### `construct` establishes `WF2` -/
+
+theorem isIdChar_lowerChar (c : Char) : isIdChar (lowerChar c) = isIdChar c := by
+  by_cases h : 'A' ≤ c ∧ c ≤ 'Z'
+  · exact upperRange (fun c => isIdChar (lowerChar c) = isIdChar c) (by decide) c h.1 h.2
+  · rw [lowerChar_of_not_upper c h]
+
+theorem all_isIdChar_lower (s : List Char) : (lower s).all isIdChar = s.all isIdChar := by
+  induction s with
+  | nil => rfl
+  | cons c cs ih =>
+    simp only [lower, List.map_cons, List.all_cons] at ih ⊢
+    rw [isIdChar_lowerChar, ih]
+
+theorem validPreId_lower (x : List Char) (h : validPreId x = true) : validPreId (lower x) = true := by
+  by_cases hd : x.all isDigit = true
+  · rw [lower_of_digits x hd]; exact h
+  · simp only [validPreId, Bool.and_eq_true] at h ⊢
+    refine ⟨⟨?_, ?_⟩, ?_⟩
+    · cases x with
+      | nil => simp at h
+      | cons c cs => rfl
+    · rw [all_isIdChar_lower]; exact h.1.2
+    · rw [all_isDigit_lower]; simp [hd]
+
+def validBuild : Option (List Char) → Bool
+  | none => true
+  | some b => (splitOn '.' b).all validBuildId
+
+theorem parseBuild_valid (s : List Char) (b : Option (List Char)) (h : parseBuild s = some b) :
+    validBuild b = true := by
+  unfold parseBuild at h
+  split at h
+  · cases h; rfl
+  · split at h
+    · cases h; assumption
+    · cases h
+  · cases h
+
+theorem parseTail_validBuild (s : List Char) (pre build : Option (List Char))
+    (h : parseTail s = some (pre, build)) : validBuild build = true := by
+  unfold parseTail at h
+  split at h
+  · split at h
+    · simp only [Option.map_eq_some_iff, Prod.mk.injEq] at h
+      obtain ⟨b, hb, _, h2⟩ := h
+      subst h2
+      exact parseBuild_valid _ _ hb
+    · simp at h
+  · simp only [Option.map_eq_some_iff, Prod.mk.injEq] at h
+    obtain ⟨b, hb, _, h2⟩ := h
+    subst h2
+    exact parseBuild_valid _ _ hb
+
+theorem semverParse_validBuild (s : List Char) (v : Ver) (h : semverParse s = some v) :
+    validBuild v.build = true := by
+  unfold semverParse at h
+  simp only [Option.bind_eq_bind, Option.bind_eq_some_iff] at h
+  obtain ⟨⟨ma, r1⟩, _, h⟩ := h
+  split at h
+  · simp only [Option.bind_eq_some_iff] at h
+    obtain ⟨⟨mi, r2⟩, _, h⟩ := h
+    split at h
+    · simp only [Option.bind_eq_some_iff] at h
+      obtain ⟨⟨pa, r3⟩, _, ⟨pre, build⟩, ht, h⟩ := h
+      simp only [Option.pure_def, Option.some.injEq] at h
+      subst h
+      exact parseTail_validBuild _ _ _ ht
+    · simp at h
+  · simp at h
+
+theorem fromCoerced_wf2 (s : List Char) (v : Ver) (h : fromCoerced s = some v) : WF2 v = true := by
+  unfold fromCoerced at h
+  simp only [] at h
+  split at h
+  · simp at h
+  · rename_i v0 hv0
+    have hvp := semverParse_validPre _ _ hv0
+    have hvb := semverParse_validBuild _ _ hv0
+    simp only [Option.some.injEq] at h
+    subst h
+    simp only [WF2, Bool.and_eq_true]
+    constructor
+    · cases hp : v0.pre with
+      | none => simp [falsy]
+      | some p =>
+        rw [hp] at hvp
+        simp only [validPre] at hvp
+        have hne : p.isEmpty = false := by
+          cases p with
+          | nil => simp [splitOn, validPreId] at hvp
+          | cons c cs => rfl
+        simp only [falsy, hne, Bool.false_eq_true, if_false, Option.map_some, lower_idem,
+          beq_self_eq_true, Bool.and_true, splitOn_lower, List.all_map]
+        apply List.all_eq_true.2
+        intro x hx
+        exact validPreId_lower x (List.all_eq_true.1 hvp x hx)
+    · cases hb : v0.build with
+      | none => rfl
+      | some b => rw [hb] at hvb; exact hvb
+
+theorem construct_wf2 (s : List Char) (v : Ver) (h : construct s = .ok (some v)) : WF2 v = true := by
+  unfold construct at h
+  simp only [] at h
+  split at h
+  · cases h
+  · split at h
+    · cases h
+    · split at h
+      · cases h
+      · rename_i v' hv
+        cases h
+        exact fromCoerced_wf2 _ _ hv
+
+/-! #### assembling -/
+
+def revS (n : Nat) : List Char := if n != 0 then '.' :: natStr n else []
+
+theorem pre_nonempty (p : List Char) (h : (splitOn '.' p).all validPreId = true) : p.isEmpty = false := by
+  cases p with
+  | nil => simp [splitOn, validPreId] at h
+  | cons c cs => rfl
+
+theorem build_nonempty (b : List Char) (h : (splitOn '.' b).all validBuildId = true) : b.isEmpty = false := by
+  cases b with
+  | nil => simp [splitOn, validBuildId] at h
+  | cons c cs => rfl
+
+theorem strV_eq (v : Ver) (h : WF2 v = true) :
+    strV v = core3 (natStr v.major) (natStr v.minor) (natStr v.patch)
+      (revS v.revision ++ (preS v.pre ++ buildS v.build)) := by
+  obtain ⟨M, m, p, pre, build, rev⟩ := v
+  simp only [WF2, Bool.and_eq_true] at h
+  cases pre with
+  | none =>
+    cases build with
+    | none => simp [strV, preS, buildS, core3, revS]
+    | some b =>
+      have hb := build_nonempty b h.2
+      simp [strV, preS, buildS, core3, revS, hb]
+  | some q =>
+    have hq := pre_nonempty q (by have := h.1; simp only [Bool.and_eq_true] at this; exact this.1)
+    cases build with
+    | none => simp [strV, preS, buildS, core3, revS, hq]
+    | some b =>
+      have hb := build_nonempty b h.2
+      simp [strV, preS, buildS, core3, revS, hq, hb]
+
+theorem tail_head (pre build : Option (List Char)) :
+    HeadNotDigit (preS pre ++ buildS build) ∧
+    ∀ c, (preS pre ++ buildS build).head? = some c → c ≠ '.' := by
+  cases pre <;> cases build <;> simp [preS, buildS, HeadNotDigit] <;> decide
+
+theorem fromCoerced_strV (v : Ver) (h : WF2 v = true) : fromCoerced (strV v) = some v := by
+  have hM := natStr_ne_nil v.major
+  have hm := natStr_ne_nil v.minor
+  have hp := natStr_ne_nil v.patch
+  have dM := natStr_digits v.major
+  have dm := natStr_digits v.minor
+  have dp := natStr_digits v.patch
+  have ⟨hT1, hT2⟩ := tail_head v.pre v.build
+  have hw := h
+  simp only [WF2, Bool.and_eq_true] at hw
+  have hpre : (match v.pre with | none => true | some p => (splitOn '.' p).all validPreId) = true := by
+    cases hv : v.pre with
+    | none => rfl
+    | some p => rw [hv] at hw; simp only [Bool.and_eq_true] at hw; exact hw.1.1
+  have hlow : (if falsy v.pre then v.pre else v.pre.map lower) = v.pre := by
+    cases hv : v.pre with
+    | none => rfl
+    | some p =>
+      rw [hv] at hw
+      simp only [Bool.and_eq_true, beq_iff_eq] at hw
+      simp [falsy, pre_nonempty p hw.1.1, hw.1.2]
+  have htail := parseTail_tail v.pre v.build hpre hw.2
+  have hsp := semverParse_core3 v.major v.minor v.patch _ hT1 v.pre v.build htail
+  have hco : ∀ rest, HeadNotDigit rest →
+      coerce (core3 (natStr v.major) (natStr v.minor) (natStr v.patch) rest) =
+        core3 (natStr v.major) (natStr v.minor) (natStr v.patch) rest := by
+    intro rest hr
+    rw [coerce_core3 _ _ _ _ hM hm hp dM dm dp hr, natVal_natStr, natVal_natStr, natVal_natStr]
+  rw [strV_eq v h]
+  simp only [fromCoerced]
+  by_cases hr : v.revision = 0
+  · have hrev : revS v.revision = [] := by simp [revS, hr]
+    rw [hrev, List.nil_append, hco _ hT1,
+      extractRevision_norev _ _ _ _ hM hm hp dM dm dp hT2 hT1]
+    simp only [hco _ hT1, hsp, hlow]
+    cases v; simp_all
+  · have hrev : revS v.revision = '.' :: natStr v.revision := by simp [revS, hr]
+    have hT' : HeadNotDigit ('.' :: natStr v.revision ++ (preS v.pre ++ buildS v.build)) :=
+      headNotDigit_dot _
+    rw [hrev, hco _ hT', List.cons_append,
+      extractRevision_rev _ _ _ _ _ hM hm hp (natStr_ne_nil _) dM dm dp (natStr_digits _) hT1]
+    simp only [hco _ hT1, hsp, hlow, natVal_natStr]
+
+theorem notSpace_of_ge (c : Char) (h : 43 ≤ c.toNat) : isPySpace c = false := by
+  have hsp : c ≠ ' ' := by intro e; subst e; exact absurd h (by decide)
+  simp only [isPySpace, Bool.or_eq_false_iff, Bool.and_eq_false_iff, beq_eq_false_iff_ne, ne_eq,
+    decide_eq_false_iff_not]
+  exact ⟨⟨hsp, by omega⟩, by omega⟩
+
+theorem isIdChar_ge (c : Char) (h : isIdChar c = true) : 45 ≤ c.toNat := by
+  simp only [isIdChar, isDigit, isAlpha, Bool.or_eq_true, Bool.and_eq_true, decide_eq_true_eq,
+    Char.le_def, UInt32.le_iff_toNat_le, beq_iff_eq] at h
+  rcases h with (h | h | h) | h
+  · exact Nat.le_trans (by decide) h.1
+  · exact Nat.le_trans (by decide) h.1
+  · exact Nat.le_trans (by decide) h.1
+  · subst h; decide
+
+theorem notSpace_digit (c : Char) (h : isDigit c = true) : isPySpace c = false :=
+  notSpace_of_ge c (by have := (isDigit_iff c).1 h; omega)
+
+theorem notSpace_parts (s : List Char) (h : ∀ part ∈ splitOn '.' s, part.all isIdChar = true) :
+    ∀ c ∈ s, isPySpace c = false := by
+  intro c hc
+  rcases chars_of_parts s h c hc with e | e
+  · subst e; decide
+  · exact notSpace_of_ge c (by have := isIdChar_ge c e; omega)
+
+theorem notSpace_strV (v : Ver) (h : WF2 v = true) : ∀ c ∈ strV v, isPySpace c = false := by
+  rw [strV_eq v h]
+  simp only [WF2, Bool.and_eq_true] at h
+  intro c hc
+  simp only [core3, List.mem_append, List.mem_cons] at hc
+  have hdig : ∀ k, c ∈ natStr k → isPySpace c = false :=
+    fun k hk => notSpace_digit c (natStr_digits k c hk)
+  rcases hc with hc | hc | hc | hc | hc | hc | hc | hc
+  · exact hdig _ hc
+  · subst hc; decide
+  · exact hdig _ hc
+  · subst hc; decide
+  · exact hdig _ hc
+  · simp only [revS] at hc
+    split at hc
+    · rcases List.mem_cons.1 hc with e | e
+      · subst e; decide
+      · exact hdig _ e
+    · simp at hc
+  · cases hp : v.pre with
+    | none => simp [hp, preS] at hc
+    | some p =>
+      rw [hp] at h hc
+      simp only [Bool.and_eq_true] at h
+      rcases List.mem_cons.1 hc with e | e
+      · subst e; decide
+      · refine notSpace_parts p (fun part hpart => ?_) c e
+        have := List.all_eq_true.1 h.1.1 part hpart
+        simp only [validPreId, Bool.and_eq_true] at this
+        exact this.1.2
+  · cases hb : v.build with
+    | none => simp [hb, buildS] at hc
+    | some b =>
+      rw [hb] at h hc
+      rcases List.mem_cons.1 hc with e | e
+      · subst e; decide
+      · refine notSpace_parts b (fun part hpart => ?_) c e
+        have := List.all_eq_true.1 h.2 part hpart
+        simp only [validBuildId, Bool.and_eq_true] at this
+        exact this.2
+
+theorem strV_head (v : Ver) (h : WF2 v = true) : ∃ d rest, strV v = d :: rest ∧ isDigit d = true := by
+  rw [strV_eq v h]
+  cases hn : natStr v.major with
+  | nil => exact absurd hn (natStr_ne_nil _)
+  | cons x xs =>
+    refine ⟨x, _, by simp only [core3, List.cons_append]; rfl, ?_⟩
+    exact natStr_digits v.major x (by rw [hn]; simp)
+
+theorem normalize_strV (v : Ver) (h : WF2 v = true) : normalize (strV v) = strV v := by
+  unfold normalize
+  rw [List.filter_eq_self.2 (fun c hc => by simp [notSpace_strV v h c hc])]
+  obtain ⟨d, rest, hs, hd⟩ := strV_head v h
+  rw [hs]
+  have : ¬ ((d == 'v' || d == 'V') = true) := by
+    intro hv
+    simp only [Bool.or_eq_true, beq_iff_eq] at hv
+    rcases hv with e | e <;> (subst e; exact absurd hd (by decide))
+  exact List.dropWhile_cons_of_neg this
+
+/-- C11: a constructed version is rebuilt from its `str` -/
+theorem str_roundtrip (s : List Char) (r : Raw) (h : construct s = .ok r) :
+    construct (str r) = .ok r := by
+  cases r with
+  | none => exact absurd (construct_isSome s none h) (by simp)
+  | some v =>
+    have hw := construct_wf2 s v h
+    obtain ⟨d, rest, hs, hd⟩ := strV_head v hw
+    have hf := fromCoerced_strV v hw
+    simp only [str, construct, normalize_strV v hw]
+    rw [hs] at hf ⊢
+    simp [hd, hf]
 
 end Univers.Nuget
